@@ -15,12 +15,48 @@ import (
 // Locker mirrors sync.Locker.
 type Locker = realsync.Locker
 
-// Pool and Map are not used by the instrumented packages; alias them so that
-// code that starts using them still compiles.
-type (
-	Pool = realsync.Pool
-	Map  = realsync.Map
-)
+// Map is not used by the instrumented packages; alias it so that code that
+// starts using it still compiles.
+type Map = realsync.Map
+
+// Pool mirrors sync.Pool deterministically: a LIFO free list that is never
+// emptied by the garbage collector. Every Get that can be served from the
+// list is (the behaviour of sync.Pool with one P and no collection in
+// between - the one under which pooled objects are reused most); the real
+// Pool's per-P caches and GC-driven clearing would make executions differ
+// from run to run, which the determinism gate of the explorer rejects.
+type Pool struct {
+	New func() any
+
+	mu    realsync.Mutex
+	items []any
+}
+
+// Get takes the object put last, or calls New.
+func (p *Pool) Get() any {
+	p.mu.Lock()
+	if n := len(p.items); n > 0 {
+		x := p.items[n-1]
+		p.items = p.items[:n-1]
+		p.mu.Unlock()
+		return x
+	}
+	p.mu.Unlock()
+	if p.New != nil {
+		return p.New()
+	}
+	return nil
+}
+
+// Put adds x to the free list.
+func (p *Pool) Put(x any) {
+	if x == nil {
+		return
+	}
+	p.mu.Lock()
+	p.items = append(p.items, x)
+	p.mu.Unlock()
+}
 
 // Mutex is a channel-based mutual exclusion lock. The zero value is an
 // unlocked mutex.
